@@ -290,6 +290,11 @@ structure Ctx where
   propTy : String → String → Option STy
   /-- result type of the invokable method / slot `name` of class `cls` -/
   methodTy : String → String → Option STy
+  /-- evaluation order of a call.  `false` (THE SPECIFICATION): the callee expression (and its receiver object) first,
+      then the arguments left to right — JavaScript.  `true` = "the F42 variant": the arguments first, then the callee
+      expression — what the compiler does today; it exists only so that a deviation of the real code can be attributed
+      to finding F42 EXACTLY (the real traces must equal this variant, every other difference still fails). -/
+  argsFirst : Bool := false
 
 inductive Ev where
   | write (o : Nat) (prop : String) (v : Val)
@@ -562,12 +567,17 @@ def evalExpr (c : Ctx) : Expr → St → Option (Val × St)
      | _ => none)
   | .call fn args, s =>
     -- JavaScript order: the callee (and its receiver) first, then the arguments left to right, then the call
-    (match evalRef c fn s with
+    -- (`c.argsFirst`: the F42 variant, arguments before the callee)
+    (match ((if c.argsFirst then
+        (match evalArgs c args s with
+         | none => none
+         | some (vs, s) => (evalRef c fn s).map fun ((r, s) : Ref × St) => (r, vs, s))
+      else
+        (match evalRef c fn s with
+         | none => none
+         | some (r, s) => (evalArgs c args s).map fun ((vs, s) : List Val × St) => (r, vs, s))) : Option (Ref × List Val × St)) with
      | none => none
-     | some (r, s) =>
-       match evalArgs c args s with
-       | none => none
-       | some (vs, s) =>
+     | some (r, vs, s) =>
          match r, vs with
          | .method o m, _ =>
            -- an untyped constant argument takes the parameter's type (`int` for every integer parameter of the
@@ -731,11 +741,13 @@ def execStmt (c : Ctx) : Stmt → St → Option (Outcome × St)
       | .normal v => (.normal (some (v.getD .void)), s)
       | .brk v => (.brk (some (v.getD .void)), s)
       | o => (o, s)
+    -- a branch is a scope of its own: a declaration made directly in it (`if (c) let v = …;` — not JavaScript, but
+    -- accepted by the grammar used) does not outlive the branch
     (match evalExpr c cnd s with
-     | some (.bool true, s) => close (execStmt c a s)
+     | some (.bool true, s) => close ((execStmt c a s).map fun ((o, s') : Outcome × St) => (o, s'.leave s.vars.length))
      | some (.bool false, s) =>
        (match b with
-        | some b => close (execStmt c b s)
+        | some b => close ((execStmt c b s).map fun ((o, s') : Outcome × St) => (o, s'.leave s.vars.length))
         | none => some (.normal (some .void), s))
      | _ => none)
   | .switch value clauses, s =>
